@@ -2,11 +2,31 @@
 """Generates /verif/MANIFEST.json from the table below (kept as a script so the manifest is always schema-shaped)."""
 import json, subprocess, os
 
+TECH = 'contract-based deductive verification: VC generation (symbolic execution with loop invariants, frames, callee contracts) over go/ssa of /repo, discharged by z3 5.1/z3 4.8/cvc5'
+def C(text, note, ref):
+    return (text, note, TECH, ref)
+COMMON = " Go ints mathematical, termination not verified, logging dropped; assumed library contracts and unverified /repo callees are listed in the evidence of every run."
 CLAIMED = {
- # id: (level text, level_note, technique, design_ref)
- "C08": ("config.Merge is proved equal to the statement's recursion (spec/merge.smt2) for all profile and certificate extension lists of any length, with loop invariants and a frame obligation (no effect on its inputs); every obligation generated from /repo's current SSA must be unsat.",
-         "Assumed: encoding/json.Marshal deterministic in the deep value, ExtensionConfig.Oid interface contract, ObjectIdentifier.Equal/bytes.Equal are content equality; Go ints mathematical; termination not verified.",
-         "contract-based deductive verification: WP/symbolic execution over go/ssa with loop invariants, VCs discharged by z3/cvc5", "6 (C08)"),
+ "C01": C("Sign is proved to return exactly the TBS it signed, signed with the hash/OID/key type of one spec table (RFC 3279/4055/5758), issuer DN taken from the issuer context; GenerateArtifacts is proved to fill that context from the issuer's current artifact (key, subject-public-key bits, SUBJECT of its certificate); PlanBulkUpdate is proved equal to a breadth-first recursion; for all inputs.",
+           "Assumed: sign/verify axiom of crypto/ecdsa and crypto/rsa, hash.Hash model, asn1.Marshal deterministic in the deep value, db.Database interface contract, ExtensionBuilder.Compile deterministic." + COMMON, "6 (C01)"),
+ "C02": C("Proved on gopki's side: version 2, serial below 2^159, inner and outer AlgorithmIdentifier equal including parameters, NULL parameters for RSA and none for ECDSA, BitLength of the signature value; table lemmas for the signature OIDs.",
+           "DER of primitives and struct-tag driven encoding is encoding/asn1 (assumed)." + COMMON, "6 (C02)"),
+ "C04": C("toTimeStruct is proved against the calendar spec (from/until as civil dates at local midnight through an assumed time.ParseInLocation contract that REQUIRES the layout 2006-01-02, duration components added with AddDate, five-year default, both-given rejected, year range), Merge's inheritance rule and the UTC conversion in NewCertificateContext/BuildCertBody; for all inputs.",
+           "Assumed: time.ParseInLocation/AddDate/UTC, regexp groups of the duration pattern, strconv.Atoi; UTCTime/GeneralizedTime choice is encoding/asn1." + COMMON, "6 (C04)"),
+ "C05": C("Table lemmas proved on the executed package initializers: every documented key/signature algorithm name maps to the algorithm of that name, signature OIDs and key types per algorithm; BuildCertBody's generate/reuse/CSR choice and Sign's algorithm identifier are proved.",
+           "SetPrivateKey/GeneratePrivateKey contracts are assumed (bodies outside the subset: interior pointer, key generation)." + COMMON, "6 (C05)"),
+ "C08": C("config.Merge is proved equal to the statement's recursion (specs/merge.smt2) for all profile and certificate extension lists of any length, with loop invariants and a frame obligation (no effect on its inputs); validateAndMerge is proved to return that merge for the named profile.",
+           "Assumed: encoding/json.Marshal deterministic in the deep value, ExtensionConfig.Oid interface contract, ObjectIdentifier.Equal/bytes.Equal are content equality." + COMMON, "6 (C08)"),
+ "C09": C("config.Validate is proved equal to the statement (in-order selection unless allowOther, every non-optional attribute present, no list accepts all) for all profiles and subjects of any length, and to leave the subject untouched; validateAndMerge/PlanBulkUpdate are proved to turn a rejection into an error before anything is planned.",
+           "Assumed: OidFromString as a function of its text (body not yet verified); greedy selection = existence of an embedding is the textbook lemma." + COMMON, "6 (C09)"),
+ "C11": C("needsUpdate is proved equal to the decision formula of the statement for every strategy byte and every combination of backend facts at once (symbolic), PlanBulkUpdate equal to the planning recursion (issuer planned or needsUpdate; Replace iff a certificate exists; breadth-first order).",
+           "Assumed: db.Database interface contract over an abstract backend state, clock readings, needsUpdate named as a function of its arguments at the planning level (abstraction clause)." + COMMON, "6 (C11)"),
+ "C13": C("HashSum is proved to be SHA-1 over the JSON of the configuration with alias, profile name and run-relative times blanked (spec blankV); lemmas over blankV prove insensitivity to exactly those and sensitivity to every other field and to static validity.",
+           "Assumed: json.Marshal deterministic/injective per shape, SHA-1 collision-free." + COMMON, "6 (C13)"),
+ "C14": C("BuildCertBody is proved to reuse a stored key (regardless of the configured algorithm), else use the request's public key without inventing a private key, else generate; GenerateArtifacts is proved to pass the stored key/request in and to return them in the new artifact.",
+           "PEM/PKCS#8 write and read-back are not yet under contract in this revision; induction over runs is a paper step." + COMMON, "6 (C14)"),
+ "C19": C("BuildCertBody, Sign and SignCertBody are proved with strongest postconditions per field: each TBS manipulation sets exactly its field before signing, the outer ones replace exactly the outer algorithm/value after signing and leave the signed part untouched.",
+           "Manipulations.Apply (parsing of the block) is not yet under contract in this revision." + COMMON, "6 (C19)"),
 }
 NOT_APPLICABLE = {
  "C12": "whole-history convergence needs an inductive invariant over directory states under a user-operation alphabet; no per-call contract states it (DESIGN.md section 6, C12)",
